@@ -1175,6 +1175,9 @@ def run_jobs_analyse(ctx, res, drv, pool, jobs, collected):
             if 0 < job["n_hof"] <= job["n_pop"]:
                 res.notes.append(f"run raised {a.get('error_msg')} for job {job}")
                 res.count("errors", "solve:unexpected:" + a["error"])
+                # a well-formed configuration has a result (termination / 'the reported result is the best entry'): raising is a violation
+                res.violation(f"solve:raises:{a['error']}", f"solve() raised on a well-formed configuration (0 < n_hof <= n_pop): {str(a.get('error_msg'))[:200]}",
+                              input={"kind": "job", "job": job, "hashseed": a.get("hashseed")})
         for role, out in runs.items():
             oracle_run(res, job, out)
         sl = solve_line(job, a)
